@@ -106,14 +106,17 @@ def make_harness(kind, root_names, universe, traced=False, via_wrapper=False):
                 for perm in itertools.permutations(roots_all):
                     world.agent.flags.clear()
                     world.flags.clear()
+                    first_request = world.n_requests + 1
                     problem, expected = run_walk(world, list(perm), db, via_wrapper, expected)
                     if expected is SKIP:
                         expected = None
                     if problem:
                         h.last_problem = problem
-                        # run-signature of known finding F01: this very walk received a GETNEXT
-                        # response with an endOfMibView binding followed by a live binding
-                        if "getnext:eomv-before-live" in world.agent.flags and known("F01"):
+                        # run-signature of known finding F01: the FIRST request of this very walk (the one
+                        # carrying the roots in listing order) was answered with an endOfMibView binding
+                        # followed by a live binding.  (Later requests go out in ascending root order, where
+                        # a conformant agent cannot produce that shape.)
+                        if ("getnext:eomv-before-live", first_request) in world.agent.flags and known("F01"):
                             problem = None
                             continue
                         break
